@@ -603,6 +603,70 @@ def run_pasha_long(pl, twin, repo):
 
 
 # ---------------------------------------------------------------------------------------------------------
+# multi-objective model-based searcher with deterministic nearest-neighbour surrogates (harness-side subclasses of
+# the public SKLearnEstimator / SKLearnPredictor): every random decision comes from generators seeded by the library
+# ---------------------------------------------------------------------------------------------------------
+def run_mo_searcher(mo, twin, repo):
+    from syne_tune.optimizer.schedulers.random_seeds import RandomSeedGenerator
+    from syne_tune.optimizer.schedulers.multiobjective.multi_surrogate_multi_objective_searcher import (
+        MultiObjectiveMultiSurrogateSearcher)
+    from syne_tune.optimizer.schedulers.searchers.bayesopt.models.sklearn_model import SKLearnEstimatorWrapper
+    from syne_tune.optimizer.schedulers.searchers.bayesopt.sklearn.estimator import SKLearnEstimator
+    from syne_tune.optimizer.schedulers.searchers.bayesopt.sklearn.predictor import SKLearnPredictor
+
+    class NNPredictor(SKLearnPredictor):
+        def __init__(self, X, y):
+            self.X, self.y = np.array(X), np.array(y).reshape((-1,))
+
+        def predict(self, X):
+            dist = np.linalg.norm(X[:, None, :] - self.X[None, :, :], axis=-1)
+            pos = np.argmin(dist, axis=1)
+            return self.y[pos] + dist[np.arange(X.shape[0]), pos], 0.05 + np.min(dist, axis=1)
+
+    class NNEstimator(SKLearnEstimator):
+        def fit(self, X, y, update_params):
+            return NNPredictor(X, y)
+
+    pert = pyrandom.Random("%s-%s" % (mo["perturb_seed"], twin))
+    ev = pyrandom.Random(mo["event_seed"])
+    space = build_space(mo["space"])
+    metrics = ["loss", "cost", "lat"][:mo["n_metrics"]]
+    kw = dict(config_space=space, metric=metrics, mode=mo.get("mode", "min"),
+              estimators={m: SKLearnEstimatorWrapper(NNEstimator(), active_metric=m) for m in metrics},
+              points_to_evaluate=[], num_initial_random_choices=mo["n_init"], num_initial_candidates=mo["n_cand"])
+    if mo["seed_mode"] == "generator":
+        kw["random_seed_generator"] = RandomSeedGenerator(mo["random_seed"])
+    else:
+        kw["random_seed"] = mo["random_seed"]
+    rec = Recorder()
+    trace, err = [], None
+    coef = [[ev.random() for _ in range(4)] for _ in metrics]
+    try:
+        with contextlib.redirect_stdout(io.StringIO()):
+            perturb(pert)
+            s = rec.call("__init__", MultiObjectiveMultiSurrogateSearcher, **kw)
+            for t in range(mo["n_suggest"]):
+                perturb(pert)
+                cfg = rec.call("get_config", s.get_config, trial_id=str(t))
+                trace.append(["suggest", t, canon(cfg)])
+                if cfg is None:
+                    break
+                rec.call("register_pending", s.register_pending, trial_id=str(t), config=cfg)
+                nums = [float(v) for v in cfg.values() if isinstance(v, (int, float))] + [0.3, 0.6]
+                # disagreeing metrics: each has its own optimum
+                res = {m: (nums[0] - c[0]) ** 2 + (nums[1] - c[1]) ** 2 + 0.1 * c[2] for m, c in zip(metrics, coef)}
+                perturb(pert)
+                if ev.random() < mo.get("p_fail", 0.0):
+                    rec.call("evaluation_failed", s.evaluation_failed, str(t))
+                    trace.append(["failed", t])
+                else:
+                    rec.call("on_trial_result", s.on_trial_result, str(t), cfg, result=res, update=True)
+    except Exception as e:
+        err = "%s: %s" % (type(e).__name__, str(e)[:200])
+    return dict(trace=trace, error=err, consumed=rec.consumed)
+
+
+# ---------------------------------------------------------------------------------------------------------
 # simulated experiment: real Tuner + SimulatorBackend over a synthetic tabular blackbox
 # ---------------------------------------------------------------------------------------------------------
 def run_sim_case(case, twin, repo):
@@ -704,6 +768,8 @@ def main():
             signal.alarm(limit)
             if case["kind"] == "sim":
                 results.append(run_sim_case(case["sim"], job["twin"], repo))
+            elif case["kind"] == "mo_searcher":
+                results.append(run_mo_searcher(case["mo"], job["twin"], repo))
             elif case["kind"] == "pasha_long":
                 results.append(run_pasha_long(case["pl"], job["twin"], repo))
             else:
